@@ -211,6 +211,18 @@ func genCursorCase(withFaults bool) *rapid.Generator[CursorCase] {
 		default:
 			c.Steps = append(c.Steps, CursorStep{Op: "close"}, CursorStep{Op: "close"}) // close before the first row, twice
 		}
+		if len(c.Faults) > 0 && chance(t, "settle", 60) {
+			// give a failure that fired time to be recorded before a deliberate
+			// Close decides the terminal state: Close must then report it
+			var steps []CursorStep
+			for _, st := range c.Steps {
+				if (st.Op == "close" || st.Op == "closepar") && !st.Async {
+					steps = append(steps, CursorStep{Op: "stall", Ms: rapid.IntRange(70, 130).Draw(t, "settlems")})
+				}
+				steps = append(steps, st)
+			}
+			c.Steps = steps
+		}
 		if c.IterGate >= 0 {
 			// a gated iteration only ends through Close/cancel, and a scripted
 			// "Next xk" could wait for rows the gate holds back: the script is a
